@@ -91,9 +91,63 @@ fn lock(threads: usize, iters: usize) -> String {
     format!("count={} overlaps={}", count, overlaps.load(Ordering::SeqCst))
 }
 
+/// appends (one thread, chunks of 1..3) overlapping takes (another thread, as the matcher thread does:
+/// `num_taken(); take()`): every item must be handed out exactly once, in order, at its own index.
+fn overlap(n: usize, chunk: usize) -> String {
+    let pool = Arc::new(ItemPool::new());
+    let p2 = pool.clone();
+    let done = Arc::new(AtomicUsize::new(0));
+    let d2 = done.clone();
+    let appender = thread::spawn(move || {
+        let mut next = 0usize;
+        while next < n {
+            let k = chunk.min(n - next).max(1);
+            let items: Vec<Arc<dyn SkimItem>> =
+                (next..next + k).map(|i| Arc::new(i.to_string()) as Arc<dyn SkimItem>).collect();
+            next += k;
+            p2.append(items);
+            if next % 64 == 0 {
+                thread::yield_now();
+            }
+        }
+        d2.store(1, Ordering::SeqCst);
+    });
+    let mut got: Vec<usize> = Vec::with_capacity(n);
+    let mut bad_index = 0usize;
+    loop {
+        let finished = done.load(Ordering::SeqCst) == 1;
+        {
+            let start = pool.num_taken();
+            let g = pool.take();
+            for (i, it) in g.iter().enumerate() {
+                let id: usize = it.text().parse().unwrap_or(usize::MAX);
+                if id != start + i {
+                    bad_index += 1;
+                }
+                got.push(id);
+            }
+        }
+        if finished && pool.num_not_taken() == 0 {
+            break;
+        }
+        if got.len() > 4 * n + 16 {
+            break;
+        }
+    }
+    let _ = appender.join();
+    let exact = got.len() == n && got.iter().enumerate().all(|(i, &x)| i == x);
+    format!(
+        "handed={} exact={} index_errors={}",
+        got.len(),
+        if exact { 1 } else { 0 },
+        bad_index
+    )
+}
+
 pub fn run(case: &str) -> String {
     let parts: Vec<&str> = case.split('|').collect();
     match parts.as_slice() {
+        ["X", n, c] => overlap(n.parse().unwrap_or(0), c.parse().unwrap_or(1)),
         ["P", n, ops] => pool(n.parse().unwrap_or(0), ops),
         ["L", t, k] => lock(t.parse().unwrap_or(0), k.parse().unwrap_or(0)),
         _ => "error:bad-case".into(),
